@@ -274,6 +274,35 @@ def judge(ctx, doc, want, opts, kind, case):
                         kind, canon.diff_text(exp, got, "original", "reparsed")))
                     ctx.count("foreign_rawtext_prefix_only_classification")
                     return
+    if found is None and opts.get("omit_optional_tags", True):
+        # listed findings p-end-parent-not-checked / body-start-before-meta-link: once such a tag is omitted the parser
+        # re-nests, and from there on the (legitimate) omissions further down interact with the broken nesting in ways
+        # the markup-level model does not reproduce.  Required: agreement up to the element at which the listed
+        # omission happens; what follows is not decided here.
+        cut = None
+        key = None
+        depth = []
+        for i2, e in enumerate(exp):
+            if e[0] == "S":
+                depth.append(i2)
+                if e[1] == canon.HTML and e[2] == "body" and not e[3] and i2 + 1 < len(exp) and exp[i2 + 1][0] == "S" and \
+                        exp[i2 + 1][1] == canon.HTML and exp[i2 + 1][2] in ("meta", "link", "template"):
+                    cut, key = i2, "body-start-before-meta-link"
+                    break
+            elif e[0] == "E":
+                me = depth.pop()
+                if exp[me][1] == canon.HTML and exp[me][2] == "p" and depth and i2 + 1 < len(exp) and exp[i2 + 1][0] == "E":
+                    par = exp[depth[-1]]
+                    if par[1] != canon.HTML or par[2] in conform.P_PARENT_EXCLUDED or "-" in par[2]:
+                        cut, key = me, "p-end-parent-not-checked"
+                        break
+        if cut is not None:
+            for sub in [qs_all] + [list(x) for r in range(len(qs_all) - 1, -1, -1) for x in itertools.combinations(qs_all, r)]:
+                m2 = model(sub)
+                if m2[:cut] == got_cmp[:cut] or eq_mod_rawcharref(m2[:cut], got_cmp[:cut], enc)[0]:
+                    ctx.known_finding(key, case, "%s walker: %s" % (kind, canon.diff_text(exp, got, "original", "reparsed")))
+                    ctx.count("omission_finding_prefix_only_classification")
+                    return
     if found is None:
         ctx.violation("roundtrip-differs", case, canon.diff_text(exp, got, "original", "reparsed") + " || output: " + short(out, 600))
         return
